@@ -67,7 +67,7 @@ def same_text(a, b):
 class C13(C.PipelineCheck):
     id = 'C13'
     title = 'Output is a deterministic function of sources and configuration'
-    required_covers = ('two-runs', 'verbose', 'visualize', 'decoy', 'reorder', 'move')
+    required_covers = ('two-runs', 'verbose', 'visualize', 'decoy', 'duplicate', 'reorder', 'move')
 
     def bounds(self, tier):
         return {'project': 'two or three files with three commands, three structs, one enum, two events (one with an untyped payload binding); one symbolic struct name '
@@ -89,6 +89,7 @@ class C13(C.PipelineCheck):
             yield ('flags/%s' % mode, dict(kind='flags', mode=mode))
             for d in range(len(DECOYS)):
                 yield ('decoy/%s/%d' % (mode, d), dict(kind='decoy', mode=mode, d=d))
+            yield ('duplicate/%s' % mode, dict(kind='duplicate', mode=mode))
             yield ('reorder/%s' % mode, dict(kind='reorder', mode=mode))
             yield ('move/%s' % mode, dict(kind='move', mode=mode))
 
@@ -133,9 +134,12 @@ class C13(C.PipelineCheck):
         def generate(e, files, holes, verbose=False, viz=False, entry='lib', reference=False):
             # the reference run uses insertion order everywhere; the other run explores every order
             # inside SCOPE: "every schedule equals the reference" implies all schedules agree
+            # directory listings and hash containers vary independently (a deterministic "reverse everything" would cancel
+            # out where a listing feeds a hash map that is iterated again)
+            e.order_dirs = 'insertion' if reference else ('insertion', 'reverse')[e.choose(2)]
             if reference:
                 e.order_mode = 'insertion'
-            elif kind != 'two-runs' and ctx.tier != 'thorough':
+            elif kind not in ('two-runs', 'duplicate') and ctx.tier != 'thorough':
                 # transformations are compared under two global schedules; all orders are covered by two-runs
                 e.order_mode = ('insertion', 'reverse')[e.choose(2)]
             else:
@@ -162,6 +166,16 @@ class C13(C.PipelineCheck):
                 pa, ra = generate(e, base_files, holes, reference=True)
                 pb, rb = generate(e, base_files, holes)
                 e.cover('two-runs')
+                relation = 'identical'
+            elif kind == 'duplicate':
+                # the same type name defined in two files (different fields): whichever definition wins, it wins under every schedule
+                dup = {'src/commands/orders.rs': C.HEADER + '#[derive(Serialize, Deserialize)]\npub struct HOLE_s { pub status: String, pub min_total: u32 }\n' +
+                       '#[tauri::command]\npub fn list_orders(filter: HOLE_s) -> u32 { 0 }\n',
+                       'src/commands/users.rs': C.HEADER + '#[derive(Serialize, Deserialize)]\npub struct HOLE_s { pub name_contains: String, pub active_only: bool }\n' +
+                       '#[tauri::command]\npub fn list_users(filter: HOLE_s) -> u32 { 0 }\n'}
+                pa, ra = generate(e, dup, holes, reference=True)
+                pb, rb = generate(e, dup, holes)
+                e.cover('duplicate')
                 relation = 'identical'
             elif kind == 'flags':
                 which = e.choose(3)
